@@ -25,6 +25,19 @@ def fam_allskip():
   return out
 
 
+def fam_repeat_options():
+  """REPEAT / measurement outcomes under the repeat options: "REPEAT beyond repeat_limit counts as
+  STOP" must hold whichever option drives the loop"""
+  from vf.progs import beh, opts, phase, program
+  out = []
+  for romf in (False, True):
+    for force in (False, True):
+      for limit in (2, 3):
+        p = phase('p', beh('RCF', ('p', 'f')), o=opts(limit=limit, force=force, romf=romf), mk='scalar')
+        out.append(program([p, phase('q', beh('C'))]))
+  return out
+
+
 def families(tier):
   if tier == 'quick':
     return [('ladder', execlib.fam_ladder(tier)),
@@ -32,12 +45,14 @@ def families(tier):
             # a STOP / FAIL_SUBTEST checkpoint or a branch that does not fire turns into a false PASS
             ('branches2', execlib.fam_branches(2, range(8))),
             ('checkpoint-context', execlib.fam_checkpoint_context()),
-            ('all-skip', fam_allskip())]
+            ('all-skip', fam_allskip()),
+            ('repeat-options', fam_repeat_options())]
   return [('ladder', execlib.fam_ladder(tier)),
           ('structure4', execlib.fam_structure(4, 'PQUG', 'CFXES')),
           ('branches3', execlib.fam_branches(3, range(8))),
           ('checkpoint-context', execlib.fam_checkpoint_context()),
           ('all-skip', fam_allskip()),
+          ('repeat-options', fam_repeat_options()),
           ('options', execlib.fam_options(tier)),
           ('table', execlib.fam_table(tier))]
 
